@@ -8,7 +8,7 @@ from ..rules import vstr, fstr, transfers, tiling, check_const_transmute, peq
 from ..typestate import Classifier, check_closure_protocol
 from ..absint import State
 from ..tys import tstr, strip_wrappers
-from . import c04, c05, c09
+from . import c04, c05, c06, c09
 
 EXPLANATION = (
     "Reduction: 'exactly once over all histories' holds if every operation taken alone is ownership-linear (what it is handed = what it hands back or destroys); "
@@ -18,7 +18,7 @@ EXPLANATION = (
     "C03.R: each owner's Drop releases exactly its field-described range and its storage field has no drop glue. C03.F (finishers): forget/finish/assume_init of a builder or iterator "
     "happen only where the owner is provably complete - position == N under the dominating facts, or after a full traversal of the owner's storage by a protocol closure. "
     "C03.S: every drop-suppression site (ManuallyDrop::new / mem::forget of a value with element drop glue) in the crate belongs to one of the accounted patterns. "
-    "C03.A: assume_init family reinterprets the whole storage (equal symbolic sizes). Per-operation linearity composes over any chain of operations by induction.")
+    "C03.I: the by-value iterator's next/next_back duplicate exactly the slot their index update excludes and nth/nth_back destroy exactly the skipped range of the iterator's own storage (rules shared with C06). C03.A: assume_init family reinterprets the whole storage (equal symbolic sizes). Per-operation linearity composes over any chain of operations by induction.")
 
 FINISH_KEYS = {"IntrusiveArrayBuilder<$0,$1>::finish", "ArrayBuilder<$0,$1>::assume_init"}
 
@@ -311,5 +311,12 @@ def check(ctx):
         ctx.floor("C03.R", "owner Drop impls (%s)" % cfg, r, 4)
         f = check_finishers(ctx, cfg)
         ctx.floor("C03.F", "finisher sites (%s)" % cfg, f, 6 if cfg == "F0" else 9)
+        # C03.I iterator primitives: next / next_back read exactly the slot their index update excludes, nth / nth_back destroy exactly
+        # the skipped range [index, index+m) / [index_back-m, index_back) of the iterator's own storage (shared rules with C06)
+        it = c06.It(ctx.db(cfg))
+        c06.check_next(ctx, cfg, it, "next")
+        c06.check_next(ctx, cfg, it, "next_back")
+        c06.check_nth(ctx, cfg, it, "nth")
+        c06.check_nth(ctx, cfg, it, "nth_back")
         s = check_suppression_sites(ctx, cfg)
         ctx.floor("C03.S", "drop-suppression sites (%s)" % cfg, s, 14)
